@@ -179,6 +179,9 @@ def _cases(draw, tier):
         return {'kind': kind, 'isa': cfg, 'fmt': fmt}
     name = draw(st.sampled_from(['tiny-cpu', 'bvf_isa', 'cpu.v2']))
     ver = draw(st.sampled_from(ISA_VERSIONS))
+    scenario = draw(st.sampled_from(['any'] * 7 + ['version-zero']))
+    if scenario == 'version-zero':
+        ver = draw(st.sampled_from([0, 0.0, 0]))         # written as a bare number in the definition
     cfg['general']['identifier'] = {'name': name, 'version': ver}
     stem = None
     if draw(st.integers(0, 3)) == 0:
@@ -200,8 +203,9 @@ def _cases(draw, tier):
     else:
         op = draw(st.sampled_from(OPS))
         rv = draw(st.sampled_from(ISA_VERSIONS + [ver]))
-        if str(ver) in ('0', '0.0') and draw(st.booleans()):
-            rv = draw(st.sampled_from(['0.0.1', '0.0.0', 0]))      # version zero against its nearest neighbours
+        if scenario == 'version-zero':
+            rv = draw(st.sampled_from(['0.0.1', '0.0.0', '0.0.1']))      # version zero against its nearest neighbours
+            req_name = name
         m_pre = re.match(r'^(\d+\.\d+\.\d+)(?:a|b|rc)\d+$', str(ver))
         if m_pre and draw(st.booleans()):
             rv = m_pre.group(1)          # a pre-release against the release it precedes
